@@ -532,7 +532,64 @@ func (vc *VC) builtin(act *Act, st *State, bi *ssa.Builtin, common *ssa.CallComm
 }
 
 // ---------- contract application at a call site ----------
+// applyContract applies a callee contract; a contract with alternatives (funcalt) is applied case
+// by case under each case condition and the outcomes are merged.
 func (vc *VC) applyContract(act *Act, st *State, fc *FuncContract, names []string, args []Val, argTypes []types.Type, resT types.Type, sig *types.Signature, site ssa.Instruction, what string) Val {
+	if fc.When == nil && len(fc.Alts) == 0 {
+		return vc.applyContract1(act, st, fc, names, args, argTypes, resT, sig, site, what)
+	}
+	cases := append([]*FuncContract{fc}, fc.Alts...)
+	pre := st.clone()
+	conds := make([]string, len(cases))
+	for k, c := range cases {
+		env := &SpecEnv{vc: vc, st: pre, old: pre, vars: map[string]TV{}, pkg: vc.eng.pkgOfContract(c), allocBase: pre.top, kind: "callsite"}
+		for j, n := range names {
+			if j < len(args) {
+				env.vars[n] = TV{args[j], argTypes[j]}
+			}
+		}
+		if c.When != nil {
+			conds[k] = env.evalBoolExpr(c.When.Expr)
+		} else {
+			conds[k] = "true"
+		}
+	}
+	n := vc.counts["case#"+fc.Key]
+	vc.counts["case#"+fc.Key]++
+	vc.oblige(st, &Obligation{Name: fmt.Sprintf("%s#precondition#%s#some-case-applies#%d", vc.eng.shortName(act.fn), strings.TrimPrefix(what, "call "), n), Kind: "call-precondition", Clause: "one of the contract cases of " + strings.TrimPrefix(what, "call ") + " applies", Src: vc.srcPos(site.Pos()), Tags: vc.fcTags()}, or(conds...))
+	var sts []*State
+	var ress []Val
+	prior := "true"
+	for k, c := range cases {
+		cs := pre.clone()
+		cs.guard = vc.def("g", "Bool", and(pre.guard, prior, conds[k]))
+		prior = and(prior, not(conds[k]))
+		r := vc.applyContract1(act, cs, c, names, args, argTypes, resT, sig, site, what+"/"+c.CaseName)
+		sts = append(sts, cs)
+		ress = append(ress, r)
+	}
+	m := vc.mergeStates(sts)
+	g := st.guard
+	*st = *m
+	st.guard = g
+	if resT == nil {
+		return nil
+	}
+	var live []*State
+	var lres []Val
+	for k, s := range sts {
+		if !s.dead && s.guard != "false" && ress[k] != nil {
+			live = append(live, s)
+			lres = append(lres, ress[k])
+		}
+	}
+	if len(lres) == 0 {
+		return vc.freshVal(st, "ret", resT)
+	}
+	return vc.mergeVals(live, lres)
+}
+
+func (vc *VC) applyContract1(act *Act, st *State, fc *FuncContract, names []string, args []Val, argTypes []types.Type, resT types.Type, sig *types.Signature, site ssa.Instruction, what string) Val {
 	fc.Used = true
 	pre := st.clone()
 	env := &SpecEnv{vc: vc, st: st, old: pre, vars: map[string]TV{}, pkg: vc.eng.pkgOfContract(fc), allocBase: pre.top, kind: "callsite"}
@@ -731,7 +788,7 @@ func (vc *VC) resolveModifies(env *SpecEnv, clauses []*Clause) (items []frameIte
 					specErr("modifies *%s: not a pointer", it.Text)
 				}
 				if pt, isPtr := tv.t.Underlying().(*types.Pointer); isPtr && !vc.eng.wholeObjectType(pt.Elem()) {
-					items = append(items, frameItem{kind: "range", ref: p.ref, lo: p.idx, hi: add(p.idx, width(pt.Elem())), text: it.Text, etype: pt.Elem()})
+					items = append(items, frameItem{kind: "range", ref: p.ref, lo: p.idx, hi: add(p.idx, width(pt.Elem())), text: it.Text, etype: pt.Elem(), width: width(pt.Elem())})
 				} else if isPtr {
 					items = append(items, frameItem{kind: "obj", ref: p.ref, text: it.Text, otype: pt.Elem()})
 				} else {
@@ -750,7 +807,7 @@ func (vc *VC) resolveModifies(env *SpecEnv, clauses []*Clause) (items []frameIte
 			case "field":
 				sel := it.Expr
 				ptr, off, w, ot := env.fieldAddrT(sel)
-				fi := frameItem{kind: "range", ref: ptr.ref, lo: add(ptr.idx, off), hi: add(ptr.idx, off+w), text: it.Text}
+				fi := frameItem{kind: "range", ref: ptr.ref, lo: add(ptr.idx, off), hi: add(ptr.idx, off+w), text: it.Text, width: w}
 				if ot != nil && vc.eng.wholeObjectType(ot) {
 					fi.otype, fi.flo, fi.fhi = ot, off, off+w
 				}
